@@ -248,18 +248,32 @@ func main() {
 		r.corpus()
 		r.exhaustive()
 		r.random(rng)
+		// the dependency loader with module loaders (dep.go)
+		r.depCorpus()
+		r.depExhaustive()
+		r.depRandom(rng)
 	})
 	res.Write(cfg)
 }
 
 func (r *runner) replay() {
 	cf := newCases()
+	dcf := newDepCases()
+	defer func() {
+		if len(dcf.Cases) > 0 {
+			r.res.CorrFiles = append(r.res.CorrFiles, dcf.WriteTo(r.cfg.Out, "cases_dep_replay"))
+		}
+	}()
 	for _, in := range lib.ReplayInputs(r.cfg.Replay) {
 		var x struct {
 			Kind string `json:"kind"`
 			Ops  []opT  `json:"ops"`
 		}
 		lib.Remarshal(in, &x)
+		if x.Kind == "dep" {
+			r.replayDep(in, dcf)
+			continue
+		}
 		if x.Kind != "history" {
 			continue
 		}
